@@ -635,6 +635,21 @@ pub fn scan_repository_multi(
         .as_secs()
         .to_string();
 
+    // The plan is written to disk, stored for undo/redo and reported as JSON; all of that needs
+    // every path in it to be valid UTF-8. Refuse up front rather than fail half way through an
+    // apply or report `plan: null`.
+    if let Some(bad) = matches
+        .iter()
+        .map(|m| &m.file)
+        .chain(paths.iter().flat_map(|r| [&r.path, &r.new_path]))
+        .find(|p| p.to_str().is_none())
+    {
+        return Err(anyhow::anyhow!(
+            "path contains invalid UTF-8 characters: {}",
+            bad.display()
+        ));
+    }
+
     Ok(Plan {
         id,
         created_at,
